@@ -1,0 +1,174 @@
+// SPDX-License-Identifier: Unlicense OR BSD-3-Clause
+
+package tables
+
+// A null offset to a Coverage or a ClassDef table is not an error : following Harfbuzz,
+// it is read as an empty table (no glyph covered, every glyph in class 0).
+// The generated parsers leave the field to nil : the functions below replace it by an
+// empty value, so that the lookups may be used without checking for nil.
+
+func covOrEmpty(c Coverage) Coverage {
+	if c == nil {
+		return Coverage1{}
+	}
+	return c
+}
+
+func classOrEmpty(c ClassDef) ClassDef {
+	if c == nil {
+		return ClassDef1{}
+	}
+	return c
+}
+
+func covsOrEmpty(cs []Coverage) {
+	for i, c := range cs {
+		cs[i] = covOrEmpty(c)
+	}
+}
+
+func (sc *SequenceContextFormat1) nullAsEmpty() { sc.coverage = covOrEmpty(sc.coverage) }
+func (sc *SequenceContextFormat2) nullAsEmpty() {
+	sc.coverage = covOrEmpty(sc.coverage)
+	sc.ClassDef = classOrEmpty(sc.ClassDef)
+}
+func (sc *SequenceContextFormat3) nullAsEmpty() { covsOrEmpty(sc.Coverages) }
+
+func (sc *ChainedSequenceContextFormat1) nullAsEmpty() { sc.coverage = covOrEmpty(sc.coverage) }
+func (sc *ChainedSequenceContextFormat2) nullAsEmpty() {
+	sc.coverage = covOrEmpty(sc.coverage)
+	sc.BacktrackClassDef = classOrEmpty(sc.BacktrackClassDef)
+	sc.InputClassDef = classOrEmpty(sc.InputClassDef)
+	sc.LookaheadClassDef = classOrEmpty(sc.LookaheadClassDef)
+}
+
+func (sc *ChainedSequenceContextFormat3) nullAsEmpty() {
+	covsOrEmpty(sc.BacktrackCoverages)
+	covsOrEmpty(sc.InputCoverages)
+	covsOrEmpty(sc.LookaheadCoverages)
+}
+
+func nullAsEmptyGSUB(lookup GSUBLookup) GSUBLookup {
+	switch lk := lookup.(type) {
+	case SingleSubs:
+		switch data := lk.Data.(type) {
+		case SingleSubstData1:
+			data.Coverage = covOrEmpty(data.Coverage)
+			lk.Data = data
+		case SingleSubstData2:
+			data.Coverage = covOrEmpty(data.Coverage)
+			lk.Data = data
+		}
+		return lk
+	case MultipleSubs:
+		lk.Coverage = covOrEmpty(lk.Coverage)
+		return lk
+	case AlternateSubs:
+		lk.Coverage = covOrEmpty(lk.Coverage)
+		return lk
+	case LigatureSubs:
+		lk.Coverage = covOrEmpty(lk.Coverage)
+		return lk
+	case ContextualSubs:
+		switch data := lk.Data.(type) {
+		case ContextualSubs1:
+			(*SequenceContextFormat1)(&data).nullAsEmpty()
+			lk.Data = data
+		case ContextualSubs2:
+			(*SequenceContextFormat2)(&data).nullAsEmpty()
+			lk.Data = data
+		case ContextualSubs3:
+			(*SequenceContextFormat3)(&data).nullAsEmpty()
+			lk.Data = data
+		}
+		return lk
+	case ChainedContextualSubs:
+		switch data := lk.Data.(type) {
+		case ChainedContextualSubs1:
+			(*ChainedSequenceContextFormat1)(&data).nullAsEmpty()
+			lk.Data = data
+		case ChainedContextualSubs2:
+			(*ChainedSequenceContextFormat2)(&data).nullAsEmpty()
+			lk.Data = data
+		case ChainedContextualSubs3:
+			(*ChainedSequenceContextFormat3)(&data).nullAsEmpty()
+			lk.Data = data
+		}
+		return lk
+	case ReverseChainSingleSubs:
+		lk.coverage = covOrEmpty(lk.coverage)
+		covsOrEmpty(lk.BacktrackCoverages)
+		covsOrEmpty(lk.LookaheadCoverages)
+		return lk
+	}
+	return lookup
+}
+
+func nullAsEmptyGPOS(lookup GPOSLookup) GPOSLookup {
+	switch lk := lookup.(type) {
+	case SinglePos:
+		switch data := lk.Data.(type) {
+		case SinglePosData1:
+			data.coverage = covOrEmpty(data.coverage)
+			lk.Data = data
+		case SinglePosData2:
+			data.coverage = covOrEmpty(data.coverage)
+			lk.Data = data
+		}
+		return lk
+	case PairPos:
+		switch data := lk.Data.(type) {
+		case PairPosData1:
+			data.coverage = covOrEmpty(data.coverage)
+			lk.Data = data
+		case PairPosData2:
+			data.coverage = covOrEmpty(data.coverage)
+			data.ClassDef1 = classOrEmpty(data.ClassDef1)
+			data.ClassDef2 = classOrEmpty(data.ClassDef2)
+			lk.Data = data
+		}
+		return lk
+	case CursivePos:
+		lk.coverage = covOrEmpty(lk.coverage)
+		return lk
+	case MarkBasePos:
+		lk.markCoverage = covOrEmpty(lk.markCoverage)
+		lk.BaseCoverage = covOrEmpty(lk.BaseCoverage)
+		return lk
+	case MarkLigPos:
+		lk.MarkCoverage = covOrEmpty(lk.MarkCoverage)
+		lk.LigatureCoverage = covOrEmpty(lk.LigatureCoverage)
+		return lk
+	case MarkMarkPos:
+		lk.Mark1Coverage = covOrEmpty(lk.Mark1Coverage)
+		lk.Mark2Coverage = covOrEmpty(lk.Mark2Coverage)
+		return lk
+	case ContextualPos:
+		switch data := lk.Data.(type) {
+		case ContextualPos1:
+			(*SequenceContextFormat1)(&data).nullAsEmpty()
+			lk.Data = data
+		case ContextualPos2:
+			(*SequenceContextFormat2)(&data).nullAsEmpty()
+			lk.Data = data
+		case ContextualPos3:
+			(*SequenceContextFormat3)(&data).nullAsEmpty()
+			lk.Data = data
+		}
+		return lk
+	case ChainedContextualPos:
+		switch data := lk.Data.(type) {
+		case ChainedContextualPos1:
+			(*ChainedSequenceContextFormat1)(&data).nullAsEmpty()
+			lk.Data = data
+		case ChainedContextualPos2:
+			(*ChainedSequenceContextFormat2)(&data).nullAsEmpty()
+			lk.Data = data
+		case ChainedContextualPos3:
+			(*ChainedSequenceContextFormat3)(&data).nullAsEmpty()
+			lk.Data = data
+		}
+		return lk
+	}
+	return lookup
+}
